@@ -194,6 +194,9 @@ impl Prop for C13 {
     fn id(&self) -> &'static str {
         "C13"
     }
+    fn canary(&self) -> bool {
+        true
+    }
     fn rule(&self) -> String {
         format!("cases = (a) sweeps: a contiguous slice of the {} ErrorKind variants (list re-read from src/errorcodes.rs at build time) x one of 17 reporting sites (query error first; after complete_one; after a finished set; finish_error after 0/3 text rows and 0/2 binary rows, and with the last row still open (write_col without end_row) in both protocols; execute error; prepare error; COM_INIT_DB error; `USE` error; query error / finish_error after which the shim returns Err from the callback - the ERR must still have been handed to the transport) x the handshake response that opened the connection (usual 4.1, pre-4.1 layout, 4.1 with a random mask over the capability bits that change no packet format) x one message (empty, ASCII, arbitrary bytes, 250-400 bytes, 65535/70000 bytes, containing '#', NUL, 0xFF); the quick tier enumerates every kind at a rotating site and every site; (b) table checks: ErrorKind::from(k as u16) == k for every variant, SQLSTATE is 5 bytes of [0-9A-Z], curated well-known (code, SQLSTATE) pairs, the (name, code) table extracted from the mysql crate, and a pinned snapshot of the whole SQLSTATE table (a change detector, stated as such). Oracle: the ERR packet decodes (own decoder + mysql_common::ErrPacket) to code = kind as u16, marker '#', state = kind.sqlstate(), identical message bytes. Non-trivial = a site other than 'query error first', or a non-ASCII/long message.", ERROR_KINDS.len())
     }
